@@ -19,6 +19,7 @@ PROPS = {
     "C02": "vp.harness.c02_layout",
     "C04": "vp.harness.c04_expr",
     "C06": "vp.harness.c06_serdes",
+    "C07": "vp.harness.c07_deser",
     "C11": "vp.harness.c11_xdef",
     "C12": "vp.harness.c12_const",
 }
